@@ -16,6 +16,9 @@ from vlib import build as B
 from vlib import expr_gen_py18 as X
 from vlib.schema_gen_py18 import PY_KEYWORDS
 
+if hasattr(sys, "set_int_max_str_digits"):
+    sys.set_int_max_str_digits(0)          # generated functions square their results in loops: results of thousands of digits occur
+
 VERIF = os.path.dirname(os.path.dirname(os.path.abspath(__file__)))
 HARNESS = os.path.join(VERIF, "harness", "h_pybody.py")
 TOOL_TIMEOUT = 30
